@@ -38,6 +38,7 @@ type LimitCfg struct {
 	VInc         string `json:"v_inc,omitempty"`
 	VDec         string `json:"v_dec,omitempty"`
 	Windowed     bool   `json:"windowed,omitempty"`
+	WithRegistry bool   `json:"with_registry,omitempty"` // built over a recording metric registry (where the test does not supply one of its own)
 	Traced       bool   `json:"traced,omitempty"`
 	TraceDebug   bool   `json:"trace_debug,omitempty"` // traced: the logger handed to the traced limit has debug output enabled (it discards the text)
 	WinSize      int32  `json:"win_size,omitempty"`
@@ -284,6 +285,9 @@ func (t *tapLimit) OnSample(start, rtt int64, inf int, drop bool) {
 // buildLimit constructs the configured limit. The library's global jitter source is re-seeded
 // first (harness go.mod has godebug randseednop=0), so construction + samples are reproducible.
 func buildLimit(c LimitCfg, reg core.MetricRegistry) built {
+	if reg == nil && c.WithRegistry {
+		reg = newRecRegistry() // every component of the chain is built over a real (recording) registry and not over none
+	}
 	b, err := tryBuildLimit(c, reg)
 	if err != nil {
 		panic(err)
@@ -580,6 +584,12 @@ func genSamples(t *rapid.T, c LimitCfg, maxN int) []Sample {
 			out[len(out)-1].Drop = true
 			if rapid.Bool().Draw(t, "slowDrop") {
 				out[len(out)-1].RTT = r * 10
+			}
+		case 2: // the far end of the RTT domain: a few completions at 2^62 ns (their sum does not fit an int64), then nothing but drops
+			k := rapid.IntRange(2, 5).Draw(t, "hugeHead")
+			for i := range out {
+				out[i].RTT = 1<<62 - int64(i%2)
+				out[i].Drop = i >= k
 			}
 		}
 	}
